@@ -351,8 +351,13 @@ def enumAux : V → Int → M V
 /-- `enumerate(xs)` as a list of pairs -/
 def enumerate (xs : V) : M V := do enumAux (← asList xs) 0
 
+def infixL : List Char → List Char → Bool
+  | [], _ => true
+  | _ :: _, [] => false
+  | n, h :: hs => n.isPrefixOf (h :: hs) || infixL n hs
+
 /-- `needle in hay` for strings (substring test) -/
-def strIn (needle hay : String) : Bool := needle.isEmpty || decide ((hay.splitOn needle).length ≥ 2)
+def strIn (needle hay : String) : Bool := infixL needle.toList hay.toList
 
 /-- `x in 'CF'` for a value `x` (a string: substring test; anything else: TypeError) -/
 def strInV : V → String → M Bool
